@@ -140,6 +140,12 @@ func genYModsCase(r *Rng) Case {
 			all["mc"]["subs"] = []any{s1, s2, s3}
 		}
 		all["mc"]["includes"] = inc
+		if cstr(all["mc"], "deviate") == "add-config" && r.Chance(50) {
+			// the deviation of mc written in its submodule mcs1 (which imports ma for it): a deviation of the module all the same
+			s1["deviate"] = "add-config"
+			s1["imports"] = []any{"ma"}
+			delete(all["mc"], "deviate")
+		}
 		if r.Chance(60) {
 			// groupings in the submodules: one of mcs2 whose body uses another of its own, used from the other files of the
 			// module (whichever of them is walked first)
@@ -276,6 +282,13 @@ func genYModsCase(r *Rng) Case {
 					gst = append(gst, e)
 				}
 				all[om]["gst"] = gst
+				if subs := carr(all[om], "subs"); len(subs) > 0 && r.Chance(60) {
+					// a typedef of the submodule the module includes, used by a leaf of the module: one module, one rule
+					sts := []string{"", "current", "deprecated", "obsolete"}
+					subs[0].(mspec)["tdst"] = pick(r, sts[1:])
+					all[om]["subleafst"] = pick(r, sts)
+					all[om]["subleaf"] = cstr(subs[0].(mspec), "name") + "td"
+				}
 				for _, l := range carr(all[om], "leaves") {
 					if cstr(l.(mspec), "type") != "identityref" && r.Chance(50) {
 						l.(mspec)["st"] = pick(r, []string{"current", "deprecated", "obsolete"})
@@ -464,6 +477,13 @@ func renderMod(c Case, s mspec) string {
 	if x := cstr(s, "usesSub"); x != "" {
 		fmt.Fprintf(&b, "  container %ssubu { uses %sgb; }\n", m, x)
 	}
+	if t := cstr(s, "subleaf"); t != "" {
+		st := ""
+		if x := cstr(s, "subleafst"); x != "" {
+			st = " status " + x + ";"
+		}
+		fmt.Fprintf(&b, "  leaf %ssubl { type %s;%s }\n", m, t, st)
+	}
 	for _, e := range carr(s, "gst") {
 		em := e.(mspec)
 		i := cint(em, "i")
@@ -521,6 +541,12 @@ func renderSub(parent string, s mspec) string {
 	if cbool(s, "ident") {
 		fmt.Fprintf(&b, "  identity %sbase;\n  identity %sder { base %sbase; }\n  leaf %sidl { type identityref { base %sbase; } }\n", n, n, n, n, n)
 	}
+	if x := cstr(s, "tdst"); x != "" {
+		fmt.Fprintf(&b, "  typedef %std { type string; status %s; }\n", n, x)
+	}
+	if cstr(s, "deviate") == "add-config" {
+		b.WriteString("  deviation /ma:matop/ma:slot { deviate add { config false; } }\n")
+	}
 	if cbool(s, "grp") {
 		fmt.Fprintf(&b, "  grouping %sga { leaf %sgal { type string; } }\n  grouping %sgb { uses %sga; container %sgbc { uses %sga; } }\n", n, n, n, n, n, n)
 	}
@@ -577,6 +603,27 @@ func modsClass(err error) string {
 	return "err:other:" + s
 }
 
+func devObserved(ms schema.ModelSet) string {
+	top := ms.Child("matop")
+	if top == nil {
+		return "dev:no-matop"
+	}
+	out := "dev:"
+	if sl := top.Child("slot"); sl != nil {
+		out += fmt.Sprintf("slot-config=%v", sl.Config())
+	} else {
+		out += "slot-absent"
+	}
+	if tg, ok := top.Child("target").(schema.Leaf); ok {
+		if dv, has := tg.Default(); has {
+			out += " target-default=" + dv
+		} else {
+			out += " target-default-none"
+		}
+	}
+	return out
+}
+
 func runYMods(c Case) string {
 	var texts []string
 	for _, s := range carr(c, "mods") {
@@ -590,6 +637,7 @@ func runYMods(c Case) string {
 	}
 	first, firstDump := "", ""
 	unstable := ""
+	devSeen := ""
 	for run := 0; run < 8; run++ {
 		// a different order of supply every time
 		order := append([]string{}, texts...)
@@ -608,6 +656,9 @@ func runYMods(c Case) string {
 		d := ""
 		if err == nil {
 			d = dumpModelSet(ms).String() + identListing(ms, "")
+			if run == 0 {
+				devSeen = devObserved(ms)
+			}
 		}
 		if run == 0 {
 			first, firstDump = modsClass(err), d
@@ -630,6 +681,10 @@ func runYMods(c Case) string {
 	out := []string{"V:" + first}
 	if cstr(c, "fault") == "dev-race" || cstr(c, "fault") == "import-self" {
 		out[0] = "V:any"
+	}
+	if out[0] == "V:ok" {
+		// what the deviations (of mb, of mc or of mc's submodule) have made of ma's nodes
+		out = append(out, devSeen)
 	}
 	if unstable == "" {
 		out = append(out, "det:stable")
